@@ -5,7 +5,7 @@ CONSTANT MaxList = 2
 CONSTANT MaxSingles = 3
 CONSTANT AccReuse = FALSE
 CONSTANT SymLeaves = 2
-CONSTANT Design = "len"
-CONSTANT Domains = {"structure"}
+CONSTANT Design = "kwstop"
+CONSTANT Domains = {"keywords"}
 INVARIANT RoundTripHolds
 CHECK_DEADLOCK FALSE
